@@ -124,6 +124,11 @@ impl<T: Send + 'static> EventSinkWriter<T> for EventBufferWriter<T> {
             return;
         }
 
+        // A buffer with a capacity of zero retains nothing.
+        if self.inner.capacity == 0 {
+            return;
+        }
+
         let mut buffer = self.inner.buffer.lock().unwrap();
         if buffer.len() == self.inner.capacity {
             buffer.pop_front();
